@@ -2,6 +2,7 @@ import M3d.Basic
 import M3d.Model.Surface
 import M3d.Model.MeshDiag
 import M3d.Model.MeshDiagSweep
+import M3d.Model.MeshDiagHist
 /-!
 Line-protocol handler for C11.  Core-only.
 
@@ -30,6 +31,14 @@ The harness prints the same canonical form from the REAL outputs; a difference i
     rn2    -> flip=<idx…> n=<count> clean=<b>
     rep2   -> cls=<…> fix=1 man=<b>
     hier2  -> like hier3  |  panic:mesh_must_be_manifold | panic:mesh_is_non-manifold
+    hist3  -> one token per observation of the history `S <k> step…` applied to the mesh `I`
+              (steps: a:<id>:<a,b,c> Add a new face pointer, r:<id> Remove, A:<id> Add an old pointer
+              again, t:<0|1>:<name> a call whose result is not compared — 1 = the vertex index exists
+              afterwards, c = continue with m.Copy(), o:nr|sv|ie|or|gate = observe a diagnostic):
+              nr=<b> | sv=<ids> | ie=<…> | or=<1|0|panic> | gate=<b> (MeshToHierarchy panics with
+              "mesh needs repair"), each computed from the CURRENT face set
+    hist2  -> the 2-D twin (steps a:<id>:<a,b> …; o:man|iv|gate): man=<b> | iv=<ids> | gate=<b>
+              (MeshToHierarchy panics with "mesh must be manifold")
 -/
 namespace M3d.Drv.C11
 open M3d M3d.Surface M3d.MeshDiag
@@ -450,8 +459,16 @@ def forestPairs {β : Type} : Forest (Nat × List (Nat × β)) → Option (List 
 /-- Exact value of the float64 nearest to a decimal literal, through its bits. -/
 def ratOfFloat (f : Float) : Rat := (ratOfBits f.toBits).getD 0
 
-def axis3 : P3 := ⟨ratOfFloat 0.95177695, ratOfFloat 0.26858931, ratOfFloat (-0.14825794)⟩
-def axis2 : P2 := ⟨ratOfFloat 0.95177695, ratOfFloat 0.26858931⟩
+/-- The sweep axes: the float64 values of the literals of the CURRENT source
+(`M3d/Gen/HierAxis.lean` is regenerated from `mesh_hierarchy.go` on every run). -/
+def axis3 : P3 :=
+  match M3d.Gen.HierAxis.axis3F with
+  | [x, y, z] => ⟨ratOfFloat x, ratOfFloat y, ratOfFloat z⟩
+  | _ => ⟨0, 0, 0⟩
+def axis2 : P2 :=
+  match M3d.Gen.HierAxis.axis2F with
+  | [x, y] => ⟨ratOfFloat x, ratOfFloat y⟩
+  | _ => ⟨0, 0⟩
 
 def handleHier3 (ts : List Tri) (cs : Array P3) (qs : List P3) : String :=
   if specNeedsRepair ts then "panic:mesh_needs_repair" else
@@ -600,12 +617,130 @@ def handleDiag2 (ss : List Seg) : String :=
   s!"man={boolStr man} iv={showNats iv}" ++ (if mman != man then " MODELDIFF:man" else "") ++
     (if miv != iv then " MODELDIFF:iv" else "") ++ (if !link then " MODELDIFF:inout" else "")
 
+/-! ### hist3: diagnostics along a history -/
+
+structure HistSt where
+  st : MeshSt                 -- the faithful stateful model (face set + lazily built index)
+  known : List (Nat × Tri)    -- every face pointer seen so far
+  out : List String           -- observations, newest first
+
+def histObserve (h : HistSt) (what : String) : Option HistSt :=
+  -- the definitions, evaluated on the current face set (pointer identities forgotten)
+  let ts := h.st.tris
+  match what with
+  | "nr" =>
+    let nr := specNeedsRepair ts
+    let d := if needsRepairSt h.st != nr then " MODELDIFF:hist-nr" else ""
+    some { h with out := (s!"nr={boolStr nr}" ++ d) :: h.out }
+  | "ie" =>
+    let ie := specInconsistent ts
+    let mie := (inconsistentEdgesSt h.st).toArray.qsort edgeLt |>.toList
+    let d := if mie != ie then " MODELDIFF:hist-ie" else ""
+    some { h with out := (s!"ie={showEdges ie}" ++ d) :: h.out }
+  | "sv" =>
+    let sv := specSingular ts
+    let msv := sortNats (singularVerticesSt h.st)
+    let d := if noDegenerate ts && msv != sv then " MODELDIFF:hist-sv" else ""
+    some { h with st := h.st.touch, out := (s!"sv={showNats sv}" ++ d) :: h.out }
+  | "or" => some { h with st := h.st.touch, out := s!"or={orientStr ts}" :: h.out }
+  | "gate" =>
+    -- `MeshToHierarchy` refuses ("mesh needs repair") exactly the meshes that need repair
+    some { h with out := s!"gate={boolStr (specNeedsRepair ts)}" :: h.out }
+  | _ => none
+
+def histStep (h : HistSt) (tok : String) : Option HistSt :=
+  match tok.splitOn ":" with
+  | ["a", id, tri] => do
+    let id ← id.toNat?
+    let t ← parseTri tri
+    if h.known.any (·.1 == id) then none
+    some { h with st := h.st.add (id, t), known := (id, t) :: h.known }
+  | ["r", id] => do
+    let id ← id.toNat?
+    let f ← h.known.find? (·.1 == id)
+    some { h with st := h.st.remove f }
+  | ["A", id] => do
+    let id ← id.toNat?
+    let f ← h.known.find? (·.1 == id)
+    some { h with st := h.st.add f }
+  | ["t", "1", _] => some { h with st := h.st.touch }
+  | ["t", "0", _] => some h
+  | ["c"] => some { h with st := h.st.copy }
+  | ["o", what] => histObserve h what
+  | _ => none
+
+def handleHist3 (ts : List Tri) (steps : List String) : Option String := do
+  let fs := enum ts
+  let h0 : HistSt := ⟨MeshSt.empty.run (fs.map MeshOp.add), fs, []⟩
+  let h ← steps.foldlM histStep h0
+  some (if h.out.isEmpty then "-" else " ".intercalate h.out.reverse)
+
+/-! ### hist2: the 2-D twin -/
+
+def specManifold2 (ss : List Seg) : Bool :=
+  (sortNats (segVerts ss)).all fun v => ss.countP (segHas v) == 2
+
+def specInconsistent2 (ss : List Seg) : List Nat :=
+  (sortNats (segVerts ss)).filter fun v =>
+    decide ((starts ss).count v > 1) || decide ((ss.filter fun s => s.1 != s.2).countP (·.2 == v) > 1)
+
+structure Hist2St where
+  st : MeshSt                 -- the shared mesh model; a segment (a, b) is the face (a, b, b)
+  known : List (Nat × Seg)
+  out : List String
+
+def hist2Step (h : Hist2St) (tok : String) : Option Hist2St :=
+  match tok.splitOn ":" with
+  | ["a", id, seg] => do
+    let id ← id.toNat?
+    let s ← parseSeg seg
+    if h.known.any (·.1 == id) then none
+    some { h with st := h.st.add (id, segTri s), known := (id, s) :: h.known }
+  | ["r", id] => do
+    let id ← id.toNat?
+    let f ← h.known.find? (·.1 == id)
+    some { h with st := h.st.remove (f.1, segTri f.2) }
+  | ["A", id] => do
+    let id ← id.toNat?
+    let f ← h.known.find? (·.1 == id)
+    some { h with st := h.st.add (f.1, segTri f.2) }
+  | ["t", "1", _] => some { h with st := h.st.touch }
+  | ["t", "0", _] => some h
+  | ["c"] => some { h with st := h.st.copy }
+  | ["o", what] =>
+    -- the definitions on the current segments
+    let ss := h.st.segs
+    match what with
+    | "man" => some { h with st := h.st.touch, out := (s!"man={boolStr (specManifold2 ss)}" ++
+        (if manifoldSt h.st != specManifold2 ss then " MODELDIFF:hist-man" else "")) :: h.out }
+    | "iv" => some { h with st := h.st.touch, out := (s!"iv={showNats (specInconsistent2 ss)}" ++
+        (if sortNats (inconsistentVertices2 ss) != specInconsistent2 ss then " MODELDIFF:hist-iv" else "")) :: h.out }
+    | "gate" => some { h with st := h.st.touch, out := s!"gate={boolStr (!specManifold2 ss)}" :: h.out }
+    | _ => none
+  | _ => none
+
+def handleHist2 (ss : List Seg) (steps : List String) : Option String := do
+  let fs := (List.range ss.length).zip ss
+  let st0 := MeshSt.empty.run (fs.map fun f => MeshOp.add (f.1, segTri f.2))
+  let h ← steps.foldlM hist2Step ⟨st0, fs, []⟩
+  some (if h.out.isEmpty then "-" else " ".intercalate h.out.reverse)
+
 /-! ### dispatch -/
 
 def handleAll (ws : List String) : Option String := do
   let kind ← ws.head?
   let is2 := kind.endsWith "2"
   let (inp, r) ← takeSection "I" ws.tail 1
+  if kind == "hist3" then
+    return ← (do
+      let ts ← inp.mapM parseTri
+      let (steps, _) ← takeSection "S" r 1
+      handleHist3 ts steps)
+  if kind == "hist2" then
+    return ← (do
+      let ss ← inp.mapM parseSeg
+      let (steps, _) ← takeSection "S" r 1
+      handleHist2 ss steps)
   let (eps, r) ← (match r with
     | "E" :: e :: r' => (parseRat e).map fun q => (some q, r')
     | _ => some (none, r))
